@@ -7,6 +7,7 @@ use crate::search::Searcher;
 pub fn stub_order_moves(_s: &Searcher, _b: &Board, moves: &mut [Move], _tt: Option<Move>, _ply: u8) { if moves.len() == 2 && kani::any() { moves.swap(0, 1); } }
 pub fn stub_order_captures(_s: &Searcher, moves: &mut [Move], _b: &Board) { if moves.len() == 2 && kani::any() { moves.swap(0, 1); } }
 pub fn stub_age(_h: &mut crate::history::HistoryTable) {}
+pub fn stub_record(_h: &mut crate::history::HistoryTable, _m: &Move, _d: u8) {}
 pub fn stub_get_score(_h: &crate::history::HistoryTable, _m: &Move) -> i32 { let x: i32 = kani::any(); kani::assume(x >= 0); x }
 
 fn qvalue(n: usize) -> i64 {
@@ -52,6 +53,7 @@ macro_rules! search_harness { ($name:ident, $body:block) => {
     #[kani::unwind(4)]
     #[kani::stub(crate::history::HistoryTable::age, stub_age)]
     #[kani::stub(crate::history::HistoryTable::get_score, stub_get_score)]
+    #[kani::stub(crate::history::HistoryTable::record_cutoff, stub_record)]
     #[kani::stub(crate::search::Searcher::order_moves, stub_order_moves)]
     #[kani::stub(crate::search::Searcher::order_captures, stub_order_captures)]
     fn $name() $body
@@ -82,6 +84,19 @@ search_harness!(c06_d1, {
     setup_game();
     let mut s = Searcher::new();
     unsafe { STOP_AT = kani::any(); }
+    let before = crate::search::vh::rep_len(&s);
+    let _ = s.find_best_move(&Board::root(), 1, Some(std::time::Duration::from_millis(1)));
+    assert!(unsafe { NODES_AFTER_STOP } == 0);
+    assert!(crate::search::vh::rep_len(&s) == before);
+    let (score, mv) = s.find_best_move(&Board::root(), 1, None);
+    check_result(score, mv, 1);
+    core::mem::forget(s);
+});
+
+search_harness!(c06_d1_stop2, {
+    setup_game();
+    let mut s = Searcher::new();
+    unsafe { STOP_AT = 2; }
     let before = crate::search::vh::rep_len(&s);
     let _ = s.find_best_move(&Board::root(), 1, Some(std::time::Duration::from_millis(1)));
     assert!(unsafe { NODES_AFTER_STOP } == 0);
